@@ -165,6 +165,8 @@ const D = {
   awaitInSlot:    { tpl: (i) => `async function as${i}() { return <Comp><div>{await idf(x)}</div></Comp>; }\n__out.k${i} = () => __env.settle(as${i}());`, jsx: true, diag: true },
   awaitSoleChild: { tpl: (i) => `async function ac${i}() { return <Comp>{await idf(x)}</Comp>; }\n__out.k${i} = () => __env.settle(ac${i}());`, jsx: true, diag: true },
   yieldInSlot:    { tpl: (i) => `function* ys${i}() { return <Comp>{yield 1}{x}</Comp>; }\n__out.k${i} = () => typeof ys${i}().next;`, jsx: true, diag: true },
+  awaitInModel:   { tpl: (i) => `async function am${i}() { return <Comp v-model={(await idf(__env)).mv0} />; }\n__out.k${i} = () => __env.settle(am${i}());`, jsx: true, diag: true },
+  awaitInModelKey: { tpl: (i) => `async function ak${i}() { return <input v-model={__env[await idf('mv0')]} />; }\n__out.k${i} = () => __env.settle(ak${i}());`, jsx: true, diag: true },
   awaitInNestedFn: { tpl: (i) => `async function an${i}() { return <Comp>{async () => await idf(x)}</Comp>; }\n__out.k${i} = () => __env.settle(an${i}());`, jsx: true },
   pragmaLike:  { tpl: (i) => `const pr${i} = <div class={c1}>{xx}</div>;\n__out.k${i} = () => pr${i};`, jsx: true },
 };
